@@ -31,7 +31,7 @@ from WallGo.grid3Scales import Grid3Scales
 
 from symx import axioms, core, npx
 from symx.core import AND, OR, Cond, Sym, close, eq, ge, gt, le, lt
-from symx.harness import HarnessDef
+from symx.harness import HarnessDef, bare
 from props import c10 as C10
 from props.c02 import make_hydro, gsq
 
@@ -78,7 +78,7 @@ def h_thermo(h, k, phase):
     th, fns, rng = C10.build(h)
     # second model: all temperatures scaled by lambda, p by lambda^4
     h.patch(TH, float=npx.symfloat, pow=core.sym_pow)
-    th2 = TH.Thermodynamics.__new__(TH.Thermodynamics)
+    th2 = bare(TH.Thermodynamics)
 
     def scaled(kk, order):
         f = fns[kk][order]
@@ -128,7 +128,7 @@ def h_grid(h, k):
     tout = h.real("tailOut", 1e-2, 1e4, default=9.0)
     h.assume(AND(gt(tin, thick * (0.5 + s) / r), gt(tout, thick * (0.5 + s) / r)))
     T0 = h.real("T0", 1e-2, 1e3, default=1.0)
-    g1, g2 = Grid3Scales.__new__(Grid3Scales), Grid3Scales.__new__(Grid3Scales)
+    g1, g2 = bare(Grid3Scales), bare(Grid3Scales)
     g1._updateParameters(tin, tout, thick, r, s, wc)
     g2._updateParameters(tin / L, tout / L, thick / L, r, s, wc / L)
     g1.momentumFalloffT, g2.momentumFalloffT = T0, L * T0
@@ -154,7 +154,7 @@ def h_grid(h, k):
 def h_wall(h, k, nf):
     L, q = lam(h, k)
     h.patch(EOMM, float=npx.symfloat, np=npx.NP())
-    eom = EOMM.EOM.__new__(EOMM.EOM)
+    eom = bare(EOMM.EOM)
     lo = h.reals("vevLow", (nf,), -10, 10)
     hi = h.reals("vevHigh", (nf,), -10, 10)
     W = h.reals("width", (nf,), 0.05, 50)
@@ -183,7 +183,7 @@ def h_action(h, k):
     W = h.reals("width", (1,), 0.5, 5)
 
     def run(scale):
-        eom = EOMM.EOM.__new__(EOMM.EOM)
+        eom = bare(EOMM.EOM)
         sc = float(scale) if not isinstance(scale, (int, float)) else scale
         eom.grid = Grid3Scales(M, 3, 8.0 / sc, 8.0 / sc, 2.0 / sc, 1.0 * sc, 0.5, 0.1)
         eom.nbrFields, eom.particles = 1, []
@@ -216,7 +216,7 @@ def h_hydro(h, k):
     vw = h.real("vw", 0.001, 0.999, default=0.5)
     hy.vMin = h.real("vMin", 0, 1, default=0.01)
     # rescaled hydrodynamics object: EOS p'(lambda T) = lambda^4 p(T), w' likewise, cs^2 invariant
-    hy2 = HY.Hydrodynamics.__new__(HY.Hydrodynamics)
+    hy2 = bare(HY.Hydrodynamics)
     L4 = L * L * L * L
     th2 = types.SimpleNamespace(
         pHighT=lambda T: L4 * th.pHighT(T / L), pLowT=lambda T: L4 * th.pLowT(T / L),
@@ -358,14 +358,14 @@ def h_manager(h, k):
     mfp = h.real("meanFreePath", 1, 500, default=50.0)
     out = []
     for scale in (1.0, L):
-        m = MG.WallGoManager.__new__(MG.WallGoManager)
+        m = bare(MG.WallGoManager)
         cfg = Config()
         cfg.configGrid.spatialGridSize, cfg.configGrid.momentumGridSize = 3, 3
         m.config = cfg
         m.phasesAtTn = types.SimpleNamespace(temperature=scale * Tn)
         m.model = types.SimpleNamespace(fieldCount=1, outOfEquilibriumParticles=[])
-        m.thermodynamics = Thermodynamics.__new__(Thermodynamics)
-        m.hydrodynamics = Hydrodynamics.__new__(Hydrodynamics)
+        m.thermodynamics = bare(Thermodynamics)
+        m.hydrodynamics = bare(Hydrodynamics)
         m.collisionDirectory = None
         st = MG.WallSolverSettings(bIncludeOffEquilibrium=False, meanFreePathScale=mfp, wallThicknessGuess=guess)
         out.append(m.setupWallSolver(st))
